@@ -136,23 +136,28 @@ impl Heap {
 }
 struct LoweringManager<'a> { heap: &'a mut Heap }
 
-/// R3: `loop_variables[..i].iter().any(|it| it.name == n)`
+/// R3: `loop_variables[..i].iter().find(|it| it.name == n).map(|it| it.type_.clone())` — the declared type of the
+/// (first) loop variable called n among those assigned before position i
 #[verifier::external_body]
-fn assigned_before(loop_variables: &Vec<lir::GenenalLoopVariable>, i: usize, n: PStr) -> (r: bool)
+fn declared_type_if_assigned_before(loop_variables: &Vec<lir::GenenalLoopVariable>, i: usize, n: PStr) -> (r: Option<lir::Type>)
   requires i <= loop_variables@.len()
-  ensures r == (exists|k: int| 0 <= k < i && (#[trigger] loop_variables@[k]).name == n)
+  ensures
+    r is Some == (exists|k: int| 0 <= k < i && (#[trigger] loop_variables@[k]).name == n),
+    r matches Some(t) ==> exists|k: int| 0 <= k < i && (#[trigger] loop_variables@[k]).name == n && loop_variables@[k].type_ == t,
 { unimplemented!() }
 
-/// the saved copy appended to the loop body for position j
-spec fn is_saved_copy(s: lir::Statement, temp: PStr, of: lir::Expression) -> bool {
-  s matches lir::Statement::Cast { name, type_, assigned_expression }
-    && name == temp && assigned_expression == of && type_ == of->Variable_1
+/// the saved copy appended to the loop body: a local of the reassigned variable's own declared type that is given the
+/// old value by a plain assignment (no cast)
+spec fn is_saved_copy(decl: lir::Statement, assign: lir::Statement, temp: PStr, of: lir::Expression, lvs: Seq<lir::GenenalLoopVariable>) -> bool {
+  &&& decl matches lir::Statement::LateInitDeclaration { name, type_ }
+        && name == temp && exists|k: int| 0 <= k < lvs.len() && (#[trigger] lvs[k]).name == of->Variable_0 && lvs[k].type_ == type_
+  &&& assign matches lir::Statement::LateInitAssignment { name, assigned_expression } && name == temp && assigned_expression == of
 }
 
 impl<'a> LoweringManager<'a> {
 //@extract crates/samlang-compiler/src/lir_lowering.rs :: impl<'a> LoweringManager<'a> / fn save_loop_values_read_after_reassignment
 //@ret r
-//@replace loop_variables[..i].iter().any(|it| it.name == n) => assigned_before(&loop_variables, i, n) ## R3: iterator adapter over the already-assigned prefix
+//@replace loop_variables[..i].iter().find(|it| it.name == n).map(|it| it.type_.clone()) => declared_type_if_assigned_before(&loop_variables, i, n) ## R3: iterator adapters over the already-assigned prefix
 //@contract
     requires
       // every name in the loop came from this heap
@@ -166,8 +171,8 @@ impl<'a> LoweringManager<'a> {
       // every loop value is the old one, or a temporary that was given the old value at the end of the body
       forall|j: int| 0 <= j < r.0@.len() ==> (#[trigger] r.0@[j]).loop_value == loop_variables@[j].loop_value
         || (loop_variables@[j].loop_value is Variable && r.0@[j].loop_value is Variable
-            && exists|k: int| statements@.len() <= k < r.1@.len()
-                 && is_saved_copy(#[trigger] r.1@[k], r.0@[j].loop_value->Variable_0, loop_variables@[j].loop_value)),  // :a_changed_loop_value_is_a_saved_copy_of_the_old_one
+            && exists|k: int| statements@.len() <= k < r.1@.len() - 1
+                 && is_saved_copy(#[trigger] r.1@[k], r.1@[k + 1], r.0@[j].loop_value->Variable_0, loop_variables@[j].loop_value, loop_variables@)),  // :a_changed_loop_value_is_a_saved_copy_of_the_old_one
       // and none of them reads a loop variable assigned earlier in the sequence: assigning in sequence is assigning at once
       reads_no_earlier_variable(r.0@),  // :no_loop_value_reads_an_earlier_assigned_variable
 //@before for i in 0..loop_variables.len() {
@@ -184,8 +189,8 @@ impl<'a> LoweringManager<'a> {
         forall|j: int| it.index() <= j < lv0.len() ==> (#[trigger] loop_variables@[j]).loop_value == lv0[j].loop_value,
         forall|j: int| 0 <= j < lv0.len() ==> (#[trigger] loop_variables@[j]).loop_value == lv0[j].loop_value
           || (lv0[j].loop_value is Variable && loop_variables@[j].loop_value is Variable
-              && exists|k: int| st0.len() <= k < statements@.len()
-                   && is_saved_copy(#[trigger] statements@[k], loop_variables@[j].loop_value->Variable_0, lv0[j].loop_value)),
+              && exists|k: int| st0.len() <= k < statements@.len() - 1
+                   && is_saved_copy(#[trigger] statements@[k], statements@[k + 1], loop_variables@[j].loop_value->Variable_0, lv0[j].loop_value, lv0)),
         forall|a: int, b: int| 0 <= a < b < it.index() ==>
           !(#[trigger] loop_variables@[b].loop_value is Variable && loop_variables@[b].loop_value->Variable_0 == #[trigger] loop_variables@[a].name),
         forall|j: int| 0 <= j < lv0.len() ==> self.heap.issued().contains((#[trigger] lv0[j]).name),
@@ -198,16 +203,17 @@ impl<'a> LoweringManager<'a> {
         assert(statements@.len() >= st_in.len() && statements@.subrange(0, st_in.len() as int) == st_in);
         assert forall|j: int| 0 <= j < lv0.len() implies (#[trigger] loop_variables@[j]).loop_value == lv0[j].loop_value
           || (lv0[j].loop_value is Variable && loop_variables@[j].loop_value is Variable
-              && exists|k: int| st0.len() <= k < statements@.len()
-                   && is_saved_copy(#[trigger] statements@[k], loop_variables@[j].loop_value->Variable_0, lv0[j].loop_value)) by {
+              && exists|k: int| st0.len() <= k < statements@.len() - 1
+                   && is_saved_copy(#[trigger] statements@[k], statements@[k + 1], loop_variables@[j].loop_value->Variable_0, lv0[j].loop_value, lv0)) by {
           if loop_variables@[j].loop_value != lv0[j].loop_value {
             if j == i {
-              assert(is_saved_copy(statements@[statements@.len() - 1], loop_variables@[j].loop_value->Variable_0, lv0[j].loop_value));
+              assert(is_saved_copy(statements@[statements@.len() - 2], statements@[statements@.len() - 1], loop_variables@[j].loop_value->Variable_0, lv0[j].loop_value, lv0));
             } else {
               assert(loop_variables@[j] == lv_in[j]);
-              let k = choose|k: int| st0.len() <= k < st_in.len()
-                   && is_saved_copy(#[trigger] st_in[k], lv_in[j].loop_value->Variable_0, lv0[j].loop_value);
+              let k = choose|k: int| st0.len() <= k < st_in.len() - 1
+                   && is_saved_copy(#[trigger] st_in[k], st_in[k + 1], lv_in[j].loop_value->Variable_0, lv0[j].loop_value, lv0);
               assert(statements@[k] == statements@.subrange(0, st_in.len() as int)[k]);
+              assert(statements@[k + 1] == statements@.subrange(0, st_in.len() as int)[k + 1]);
             }
           }
         }
